@@ -242,7 +242,7 @@ func (d *DFA) SearchAtAnchored(cache *DFACache, haystack []byte, at int) int {
 	// Get ANCHORED start state (requires match to start exactly at 'at')
 	currentState := d.getStartState(cache, haystack, at, true)
 	if currentState == nil {
-		return d.nfaFallback(haystack, at)
+		return d.nfaFallbackAnchored(haystack, at)
 	}
 
 	lastMatch := -1
@@ -271,14 +271,14 @@ func (d *DFA) SearchAtAnchored(cache *DFACache, haystack []byte, at int) int {
 		case InvalidState:
 			currentState = cache.getState(sid)
 			if currentState == nil {
-				return d.nfaFallback(haystack, at)
+				return d.nfaFallbackAnchored(haystack, at)
 			}
 			nextState, err := d.determinize(cache, currentState, b)
 			if err != nil {
 				if isCacheCleared(err) {
 					currentState = d.getStartState(cache, haystack, pos, true)
 					if currentState == nil {
-						return d.nfaFallback(haystack, at)
+						return d.nfaFallbackAnchored(haystack, at)
 					}
 					sid = currentState.id
 					ft = cache.flatTrans
@@ -286,7 +286,7 @@ func (d *DFA) SearchAtAnchored(cache *DFACache, haystack []byte, at int) int {
 					pos--
 					continue
 				}
-				return d.nfaFallback(haystack, at)
+				return d.nfaFallbackAnchored(haystack, at)
 			}
 			if nextState == nil {
 				return lastMatch
@@ -1664,6 +1664,18 @@ func (d *DFA) nfaFallback(haystack []byte, startPos int) int {
 	}
 
 	// PikeVM.SearchAt returns absolute positions
+	return end
+}
+
+// nfaFallbackAnchored is nfaFallback for ANCHORED searches: the match must begin
+// exactly at startPos. The leftmost match found by the unanchored PikeVM search
+// begins at startPos iff some match begins there, and it then is the
+// leftmost-first match from startPos.
+func (d *DFA) nfaFallbackAnchored(haystack []byte, startPos int) int {
+	start, end, matched := d.pikevm.SearchAt(haystack, startPos)
+	if !matched || start != startPos {
+		return -1
+	}
 	return end
 }
 
